@@ -53,10 +53,32 @@ func zl(xs ...int) string {
 
 func isUnit(p s2.Point) bool { return p.IsUnit() }
 
+
+// stableUnderflow reports whether the error scale of stableSign, |e1|^2*|e2|^2 for the two
+// shorter edges, underflows (so that maxErr is 0 or meaningless). Recomputed here from the
+// definition; used only to CLASSIFY a wrong stableSign answer as the known underflow defect.
+func stableUnderflow(a, b, c s2.Point) bool {
+	ab, bc, ca := b.Sub(a.Vector), c.Sub(b.Vector), a.Sub(c.Vector)
+	n := []float64{ab.Norm2(), bc.Norm2(), ca.Norm2()}
+	// product of the two smallest squared lengths
+	lo1, lo2 := math.Inf(1), math.Inf(1)
+	for _, v := range n {
+		if v < lo1 {
+			lo1, lo2 = v, lo1
+		} else if v < lo2 {
+			lo2 = v
+		}
+	}
+	return lo1*lo2 < 0x1p-960
+}
+
 type obs struct {
 	c   *vkit.Collector
 	rng *vkit.Rng
 	K   float64 // maxDeterminantError of the tree under test
+	// searchOnly: run the [S] checks of signCase without adding a correspondence case
+	// (for classes that need thousands of trials to hit a rare failure)
+	searchOnly bool
 }
 
 // ---------------------------------------------------------------- orientation
@@ -91,7 +113,9 @@ func (o *obs) signCase(class string, a, b, c s2.Point) {
 	cl.Class(fmt.Sprintf("decided-by:%d", stage))
 	cl.Sample(map[string]interface{}{"type": "sign", "class": class, "a": []float64{a.X, a.Y, a.Z}, "b": []float64{b.X, b.Y, b.Z}, "c": []float64{c.X, c.Y, c.Z}, "stage": stage, "RobustSign": rob})
 	// [T]
-	cl.Check("sign "+class+" "+k, vkit.App("zlist_eqb", vkit.App("sign_stages", P(a), P(b), P(c)), zl(tri, stb, exd, exs, exp, rob, stage)))
+	if !o.searchOnly {
+		cl.Check("sign "+class+" "+k, vkit.App("zlist_eqb", vkit.App("sign_stages", P(a), P(b), P(c)), zl(tri, stb, exd, exs, exp, rob, stage)))
+	}
 
 	// [S]
 	r := rep(a, b, c)
@@ -120,10 +144,14 @@ func (o *obs) signCase(class string, a, b, c s2.Point) {
 		if tri != 0 && tri != det {
 			cl.Violate("triageSign.wrong", "triageSign returned a non-zero sign that is not the sign of the exact determinant (H-TRIAGE-DET)", r)
 		}
-		if stb != 0 && stb != det {
+		under := stableUnderflow(a, b, c)
+		stableWrong := stb != 0 && stb != det
+		if stableWrong && under {
+			cl.Violate("stableSign.underflow", "stableSign returns a wrong non-zero sign when |e1|^2*|e2|^2 underflows (maxErr = 0 accepts rounding noise); RobustSign inherits it", r)
+		} else if stableWrong {
 			cl.Violate("stableSign.wrong", "stableSign returned a non-zero sign that is not the sign of the exact determinant (H-STABLE-DET)", r)
 		}
-		if det != 0 && rob != det {
+		if det != 0 && rob != det && !(tri == 0 && stableWrong && under) {
 			cl.Violate("RobustSign.det", "RobustSign is not the sign of the non-zero exact determinant", r)
 		}
 		if (rob == 0) != identical {
@@ -131,9 +159,18 @@ func (o *obs) signCase(class string, a, b, c s2.Point) {
 		}
 		// rotation and swap laws on the real RobustSign, all six orders
 		for _, q := range [][4]interface{}{{b, c, a, 1}, {c, a, b, 1}, {c, b, a, -1}, {b, a, c, -1}, {a, c, b, -1}} {
-			got := int(s2.RobustSign(q[0].(s2.Point), q[1].(s2.Point), q[2].(s2.Point)))
+			qa, qb, qc := q[0].(s2.Point), q[1].(s2.Point), q[2].(s2.Point)
+			got := int(s2.RobustSign(qa, qb, qc))
 			if got != q[3].(int)*rob {
-				cl.Violate("RobustSign.permutation", "RobustSign is not invariant under rotation / negated by a swap", r)
+				// attribute to the known underflow defect when one of the two calls was decided by a
+				// wrong, underflowed stableSign
+				qs := int(s2.VerifC02StableSign(qa, qb, qc))
+				qWrong := s2.VerifC02TriageSign(qa, qb, qc) == 0 && qs != 0 && qs != q[3].(int)*det
+				if under && ((tri == 0 && stableWrong) || qWrong) {
+					cl.Violate("stableSign.underflow", "RobustSign permutation law broken through the stableSign underflow defect", r)
+				} else {
+					cl.Violate("RobustSign.permutation", "RobustSign is not invariant under rotation / negated by a swap", r)
+				}
 				break
 			}
 		}
